@@ -216,8 +216,8 @@ func (w *c01Worker) Item(idx int, emit func(vf.Violation), st sweep.Stats, sampl
 			continue
 		}
 		emit(vf.Violation{Sig: opSeq(p) + "|" + dir,
-			Detail:  fmt.Sprintf("%s on %s: %s", refsem.ProgName(p), w.fixtures[fi].Name, detail),
-			Replay:  map[string]any{"program": refsem.ProgName(p), "fixture": w.fixtures[fi].Name, "index": idx}})
+			Detail: fmt.Sprintf("%s on %s: %s", refsem.ProgName(p), w.fixtures[fi].Name, detail),
+			Replay: map[string]any{"program": refsem.ProgName(p), "fixture": w.fixtures[fi].Name, "index": idx}})
 	}
 	_ = nonEmpty
 	if idx%997 == 0 {
